@@ -231,7 +231,7 @@ else:
     # fixed probes of the repo's own test strings
     for s in [b"hello", b"caf\xc3\xa9", b"cafe\xcc\x81", b"\xe5\xbd\xa1", b"\xf0\x9f\x8f\xa0", b"A\xef\xbc\xa1", b"\xcc\x81a", b""]:
         H.op(f"count {hexs(s + NUL)} nul - -")
-    for _ in range(350 if quick else 2500):
+    for _ in range(4000 if quick else 15000):
         ops_for_string(gen_string(rng.choice([6, 16, 40])))
     # a long string crossing a page boundary
     big = [ch(rng.choice([0x61, 0x5f61, 0x301, 0xe9, 0x1f3e0])) for _ in range(3000)]
@@ -240,14 +240,14 @@ else:
     # unterminated / over-long inputs: the guard page must be hit, and both sides must say so
     H.op("count 4142 nul - -"); H.op("count 4142 len=3 - -"); H.op("count 41e5bd nul - -"); H.op("count 4142 len=2 - 3,0,0,0")
     cps = interesting_cps()
-    step = 0x1fffff // (1500 if quick else 20000)
+    step = 0x1fffff // (3000 if quick else 30000)
     cps += [min(0x1fffff, k * step + rng.randint(0, step - 1)) for k in range(0x1fffff // step)]
     cp_ops(cps)
-    for lo in (rng.sample(range(0, 0x200000, 0x1000), 24 if quick else 128)):
+    for lo in (rng.sample(range(0, 0x200000, 0x1000), 48 if quick else 192)):
         H.op(f"sweep {lo:#x} {lo + 0x1000:#x}", 8)
     # ---- separate malformed stream, last: a non-continuation byte where a continuation byte is required
     H.n = 0
-    for _ in range(6 if quick else 40):
+    for _ in range(10 if quick else 60):
         items = [it for it in gen_string(6, p_err=0.0) if it[1] is not None]
         lead = enc(rng.choice([0xe9, 0x5f61, 0x1f3e0]))
         cut = rng.randint(1, len(lead) - 1)
